@@ -68,36 +68,25 @@ func runC10(c *an.Ctx) {
 		return
 	}
 	syncM := an.M(mod, "DagModifier", "Sync")
-	// package-local functions that return a nil error only after a successful Sync()
-	syncing := map[*ssa.Function]bool{}
-	for _, fn := range fns {
-		res := fn.Signature.Results()
-		if fn == sync || res.Len() == 0 || !an.IsErrorType(res.At(res.Len()-1).Type()) {
-			continue
-		}
-		scs := an.Calls(fn, syncM)
-		if len(scs) == 0 {
-			continue
-		}
-		all := true
-		for _, ret := range an.Returns(fn) {
-			if !an.IsNilConst(ret.Results[len(ret.Results)-1]) {
-				continue
-			}
-			ok := false
-			for _, sc := range scs {
-				if an.Dominates(sc, ret) && an.XBOnNilEdge(fn, sc, ret) {
-					ok = true
+	// functions the flush itself runs (reachable from Sync through package-local static calls)
+	flushFns := map[*ssa.Function]bool{}
+	{
+		var walk func(f *ssa.Function)
+		walk = func(f *ssa.Function) {
+			for _, g := range an.WithClosures(f) {
+				for _, call := range an.AllCalls(g) {
+					if h := an.Callee(call).Static; h != nil && h.Pkg != nil && sync.Pkg != nil && h.Pkg == sync.Pkg && h != sync && !flushFns[h] {
+						flushFns[h] = true
+						walk(h)
+					}
 				}
 			}
-			if !ok {
-				all = false
-			}
 		}
-		if all {
-			syncing[fn] = true
-		}
+		walk(sync)
 	}
+	inFlushClosure := func(f *ssa.Function) bool { return flushFns[f] }
+	// package-local functions that return a nil error only with the buffer flushed (filled by a fixpoint below)
+	syncing := map[*ssa.Function]bool{}
 	// syncedBefore: site is preceded, in fn, by Sync() or a syncing helper on its nil-error edge
 	syncedBefore := func(fn *ssa.Function, site ssa.Instruction) bool {
 		for _, call := range an.AllCalls(fn) {
@@ -109,7 +98,65 @@ func runC10(c *an.Ctx) {
 				return true
 			}
 		}
+		// or: every path to the site either crosses an edge on which dm.wrBuf was tested nil (nothing buffered) or an
+		// edge on which the result of a Sync() was tested nil ("if dm.wrBuf != nil { if err := dm.Sync(); err != nil {..} }")
+		cut := an.EdgeSet{}
+		var loads []ssa.Value
+		for _, l := range an.FieldReads(fn, fWrBuf) {
+			loads = append(loads, l)
+		}
+		cut = cut.Union(an.NilEdges(fn, loads, true))
+		for _, call := range an.AllCalls(fn) {
+			if g := an.Callee(call).Static; g != nil && (g == sync || syncing[g]) {
+				cut = cut.Union(an.NilEdges(fn, an.ErrResult(call), true))
+			}
+		}
+		if len(cut) > 0 && an.Reaches(fn, nil, site, nil, nil) && !an.Reaches(fn, nil, site, cut, nil) {
+			return true
+		}
 		return false
+	}
+	// fixpoint for the syncing helpers: every return whose error may be nil is either the forwarded result of Sync()/a
+	// syncing helper, or is reached only with the buffer flushed / known empty
+	for changed := true; changed; {
+		changed = false
+		for _, fn := range fns {
+			res := fn.Signature.Results()
+			if fn == sync || syncing[fn] || inFlushClosure(fn) || res.Len() == 0 || !an.IsErrorType(res.At(res.Len()-1).Type()) {
+				continue
+			}
+			uses := false
+			for _, call := range an.AllCalls(fn) {
+				if g := an.Callee(call).Static; g != nil && (g == sync || syncing[g]) {
+					uses = true
+				}
+			}
+			if !uses {
+				continue
+			}
+			all := true
+			for _, ret := range an.Returns(fn) {
+				e := ret.Results[len(ret.Results)-1]
+				if call, ok := an.IsCallTo(e, syncM); ok && call != nil {
+					continue // return dm.Sync()
+				}
+				if cv, ok := e.(*ssa.Call); ok {
+					if g := an.Callee(cv).Static; g != nil && syncing[g] {
+						continue
+					}
+				}
+				if !an.IsNilConst(e) && c07IsFailureReturn(fn, ret) {
+					continue
+				}
+				if !syncedBefore(fn, ret) {
+					all = false
+				}
+			}
+			if all {
+				syncing[fn] = true
+				changed = true
+			}
+		}
 	}
 	nO2 := 0
 	for _, fn := range fns {
@@ -322,10 +369,8 @@ func runC10(c *an.Ctx) {
 	}
 	var syncedAt func(fn *ssa.Function, site ssa.Instruction, depth int) (bool, string)
 	syncedAt = func(fn *ssa.Function, site ssa.Instruction, depth int) (bool, string) {
-		for _, sc := range an.Calls(fn, syncM) {
-			if an.Dominates(sc, site) && an.XBOnNilEdge(fn, sc, site) {
-				return true, ""
-			}
+		if syncedBefore(fn, site) {
+			return true, ""
 		}
 		if depth >= 3 {
 			return false, an.FuncName(fn)
@@ -378,6 +423,78 @@ func runC10(c *an.Ctx) {
 		}
 	}
 	c.Min("O3 output uses of curNode", nO3, 1)
+
+	// O3b: the functions the flush itself runs on the DAG / the buffer (expandSparse, modifyDag, appendData ...) are
+	// exempt from the rule above; every entry into them from outside the flush must therefore happen with the buffer
+	// flushed: after a successful Sync() (in the caller or at all of its call sites), or where dm.wrBuf was tested nil.
+	// Accepted idiom (WriteAt): grow by (T - Size()) first, then Sync() successfully and set writeStart = T on every
+	// success path — the next flush re-grows the DAG up to writeStart, so the logical/physical size mix is repaired.
+	{
+		g3 := an.XBLocalGraph(fns)
+		touches := map[*ssa.Function]bool{}
+		for _, fn := range fns {
+			if len(an.FieldAddrs(fn, fNode)) > 0 || len(an.FieldAddrs(fn, fWrBuf)) > 0 {
+				touches[fn] = true
+			}
+		}
+		for changed := true; changed; {
+			changed = false
+			for _, fn := range fns {
+				if touches[fn] {
+					continue
+				}
+				for _, call := range an.AllCalls(fn) {
+					if t := an.Callee(call).Static; t != nil && touches[t] {
+						touches[fn] = true
+						changed = true
+					}
+				}
+			}
+		}
+		nEntry := 0
+		for _, fn := range fns {
+			if inSync[fn] || (fn.Name() == "Size" && fn.Signature.Recv() != nil) {
+				continue
+			}
+			for _, call := range an.AllCalls(fn) {
+				t := an.Callee(call).Static
+				if t == nil || t == sync || !inSync[t] || !touches[t] || syncing[t] {
+					continue
+				}
+				nEntry++
+				ok := g3.HeldUp(fn, call, func(f *ssa.Function, at ssa.Instruction) bool {
+					return syncedBefore(f, at)
+				}, 3)
+				idiom := false
+				if !ok {
+					// grow-then-reposition: argument is T - X; afterwards Sync() succeeds and writeStart = T on every success path
+					if sub, isSub := an.XBStripConv(call.Common().Args[len(call.Common().Args)-1]).(*ssa.BinOp); isSub && sub.Op == token.SUB {
+						target := an.XBStripConv(sub.X)
+						var repos []ssa.Instruction
+						for _, st := range an.FieldStores(fn, fStart) {
+							if an.XBStripConv(st.Val) == target && syncedBefore(fn, st) {
+								// the Sync that precedes the store must come after the grow
+								after := false
+								for _, sc := range an.AllCalls(fn) {
+									if g := an.Callee(sc).Static; g != nil && (g == sync || syncing[g]) && an.Reaches(fn, call, sc, nil, nil) && an.Dominates(sc, st) {
+										after = true
+									}
+								}
+								if after {
+									repos = append(repos, st)
+								}
+							}
+						}
+						idiom = c07FollowsOnSuccess(fn, call, repos)
+					}
+				}
+				c.Check(ok || idiom, "O3", "R-DOM", an.FuncName(fn), t.Name()+"<=Sync-ok", call.Pos(),
+					"the DAG/buffer operation of the flush is entered with the write buffer flushed (successful Sync, empty buffer, or grow-then-Sync-and-reposition)",
+					t.Name()+" is entered from "+fn.Name()+" without a preceding successful Sync() (and the buffer is not known to be empty): it works on a DAG that does not yet contain the buffered bytes while sizes computed from Size() already count them — the file ends up short/misplaced by the buffered bytes")
+			}
+		}
+		c.Min("O3 entries into flush operations from outside the flush", nEntry, 1)
+	}
 
 	// ---------------- O4: reader invalidation
 	nO4 := 0
